@@ -128,24 +128,29 @@ def pde_oracle(genfile, pfx, spec=None, rt=None, heat=None, kfun=None, thresh=1e
                               'how': 'finite-difference residual of the returned fields in the documented PDE '
                                      '(5-point stencils, relative step 1e-3); threshold %g' % thresh})
         fails.sort(key=lambda f: -max(v for v in f['normalised_residuals'].values() if v == v))
-        # confirm every candidate at a second step size before reporting it
+        # confirm every candidate at LARGER step sizes before reporting it: a genuine violation of the PDE does not depend on the step
+        # (the 5-point truncation error at relative step 1.6e-2 is ~1e-7 of the terms), whereas cancellation noise in the second
+        # derivative of the heat flux falls like 1/step^2; a candidate is kept only if it exceeds the threshold at every step
         confirmed = []
         if fails:
-            chk = []
             for f in fails[:10]:
-                c = {'module': f['module'], 'class': f['solver'], 'params': f['params'], 'r': f['r'], 't': f['t'],
-                     'k': (kfun(f['params']) if kfun else float(f['params'].get('geometry', cj_fixed(cj, 'geometry', 3))) - 1),
-                     'step': 3e-4}
-                if heat:
-                    c['heat'] = list(heat(f['params']))
-                chk.append(c)
-            res2 = H.run_real(PDE_SCRIPT, chk)
-            for f, o2 in zip(fails[:10], res2):
-                if 'error' in o2:
-                    continue
-                v2 = [o2[k_] for k_ in ('mass', 'momentum', 'energy') if o2[k_] == o2[k_]]
-                if v2 and max(v2) > thresh:
-                    f['normalised_residuals_step_3e-4'] = {k_: o2[k_] for k_ in ('mass', 'momentum', 'energy')}
+                keep = True
+                for stp in (4e-3, 1.6e-2):
+                    c = {'module': f['module'], 'class': f['solver'], 'params': f['params'], 'r': f['r'], 't': f['t'],
+                         'k': (kfun(f['params']) if kfun else float(f['params'].get('geometry', cj_fixed(cj, 'geometry', 3))) - 1),
+                         'step': stp}
+                    if heat:
+                        c['heat'] = list(heat(f['params']))
+                    o2 = H.run_real(PDE_SCRIPT, [c])[0]
+                    if 'error' in o2:
+                        keep = False
+                        break
+                    v2 = [o2[k_] for k_ in ('mass', 'momentum', 'energy') if o2[k_] == o2[k_]]
+                    if not (v2 and max(v2) > thresh):
+                        keep = False
+                        break
+                    f['normalised_residuals_step_%g' % stp] = {k_: o2[k_] for k_ in ('mass', 'momentum', 'energy')}
+                if keep:
                     confirmed.append(f)
         return confirmed
     return oracle
